@@ -130,6 +130,7 @@ type toolRun struct {
 	Want2  int      `json:"want2"`  // alternative acceptable code (-1 none)
 	RefOK  bool     `json:"ref_ok"` // the reference says: verifies and meets the effective policy
 	Stdin  []byte   `json:"-"`
+	Env    []string `json:"env,omitempty"` // extra environment of the tool process
 	Exit   int      `json:"exit"`
 	Stderr string   `json:"stderr"`
 }
@@ -592,6 +593,26 @@ func c19(x *mon.Ctx) {
 		add("network", "config-says-collateral+crl/flags-turn-both-off", "outofdate", 0, -1, true, append([]string{"-in", qf, "-config", cf, "-get_collateral=false", "-check_crl=false"}, tmo...)...)
 		add("network", "config-says-collateral+crl/proxy-dead", "dead", 3, -1, false, append([]string{"-in", qf, "-config", cf}, tmo...)...)
 	}
+	// ---- the tool judges "now" (it has no flag for the time): the verdict is about instants, whatever time zone the process
+	//      runs in. A leaf that expired two hours ago is refused, one that expires in two hours is accepted, in every zone.
+	{
+		now := time.Now()
+		for _, lf := range []struct {
+			name string
+			end  time.Time
+			want int
+			ok   bool
+		}{{"leaf-expired-2h-ago", now.Add(-2 * time.Hour), 2, false}, {"leaf-expires-in-2h", now.Add(2 * time.Hour), 0, true}} {
+			w2 := w.Clone()
+			w2.PKI.Leaf = world.Reissue(w.PKI.Leaf, w.PKI.Inter, func(t *x509.Certificate) { t.NotAfter = lf.end })
+			w2.Q.Chain = world.ChainPEM(false, w2.PKI.Leaf, w2.PKI.Inter, w2.PKI.Root)
+			f := write("tz-"+lf.name+".bin", w2.Q.Bytes())
+			for _, tz := range []string{"UTC", "America/Los_Angeles", "Pacific/Honolulu", "America/New_York", "Asia/Tokyo", "Pacific/Kiritimati", "Asia/Kolkata"} {
+				t := add("time-zone", lf.name+"/TZ="+tz, "", lf.want, -1, lf.ok, "-in", f, "-trusted_roots", rootf)
+				t.Env = []string{"TZ=" + tz}
+			}
+		}
+	}
 	// ---- run
 	var rmu sync.Mutex
 	x.Each(len(runs), func(i int) {
@@ -609,6 +630,7 @@ func c19(x *mon.Ctx) {
 			n := nets[t.Net]
 			cmd.Env = append(cmd.Env, "HTTPS_PROXY="+n.proxyURL, "SSL_CERT_FILE="+n.caFile, "SSL_CERT_DIR="+filepath.Join(dir, "nocerts"))
 		}
+		cmd.Env = append(cmd.Env, t.Env...)
 		if t.Stdin != nil {
 			cmd.Stdin = bytes.NewReader(t.Stdin)
 		}
